@@ -9,7 +9,7 @@ import lib
 ID = "C14"
 LEAN_TARGETS = ["PV.Props.C14"]
 # further files of property theorems (all are obligations): convergence / root-closeness stretch theorems
-EXTRA_PROPS = ['PV.Props.C04Conv']
+EXTRA_PROPS = ['PV.Props.C04Conv', 'PV.Props.C14Bound']
 # T-C tie (DESIGN 2.3): kernels traced from the current source are proved equal to the model over the reals
 EQUIV = {'PV.Equiv.Geoloc': ['qrotate_eq', 'qrotate_shared_axis_eq', 'geodetic_lat_p1', 'geodetic_lat_p1_c1', 'geodetic_lat_p2', 'geodetic_lat_p2_c2', 'geodLoop_succ', 'subpoint_eq']}
 RULE = ("random vectors/axes of any magnitude (1e-3..1e5), angles in [-4pi, 4pi] incl. 0, +-pi, +-2pi, over every combination "
